@@ -28,6 +28,8 @@ For documentation, see mocksupport.rst.
 import os
 import time
 import re
+from contextlib import contextmanager
+from copy import deepcopy
 from xml.dom import minidom
 
 from pywbem import WBEMConnection, CIMClass, CIMClassName, \
@@ -618,6 +620,29 @@ class FakedWBEMConnection(WBEMConnection):
     #
     ###########################################################################
 
+    @contextmanager
+    def _restore_repository_on_error(self):
+        """
+        Context manager that restores the content of the CIM repository to the
+        state it had when the context was entered, if the body raises an
+        exception. The exception is re-raised.
+
+        This implements the documented behavior of the methods that add
+        multiple objects to the CIM repository (compile_mof_file(),
+        compile_mof_string(), compile_schema_classes(), add_cimobjects()):
+        In all cases where they raise an exception, the CIM repository
+        remains unchanged.
+        """
+        saved_repository = deepcopy(self.cimrepository)
+        try:
+            yield
+        except Exception:
+            self.cimrepository.load(saved_repository)
+            # The class cache of the MOF compiler connection may contain
+            # classes that have just been removed again.
+            self._mofwbemconnection.classes.clear()
+            raise
+
     def compile_mof_file(self, mof_file, namespace=None, search_paths=None,
                          verbose=None):
         """
@@ -692,7 +717,8 @@ class FakedWBEMConnection(WBEMConnection):
                                   search_paths=search_paths,
                                   verbose=verbose, **log_func_kwargs)
 
-            mofcomp.compile_file(mof_file, namespace)
+            with self._restore_repository_on_error():
+                mofcomp.compile_file(mof_file, namespace)
 
     def compile_mof_string(self, mof_str, namespace=None, search_paths=None,
                            verbose=None):
@@ -766,7 +792,8 @@ class FakedWBEMConnection(WBEMConnection):
                                   search_paths=search_paths,
                                   verbose=verbose, **log_func_kwargs)
 
-            mofcomp.compile_string(mof_str, namespace)
+            with self._restore_repository_on_error():
+                mofcomp.compile_string(mof_str, namespace)
 
     def compile_schema_classes(self, class_names, schema_pragma_files,
                                namespace=None, verbose=False):
@@ -845,14 +872,15 @@ class FakedWBEMConnection(WBEMConnection):
             # Build the pragma file and compile for each pragma file in
             # schema_pragma_files. The search path for each compile is the
             # directory containing that schema_pragma_file
-            for schema_pragma_file in schema_pragma_files:
-                search_path = os.path.dirname(schema_pragma_file)
-                compile_pragma = build_schema_mof(
-                    class_names, schema_pragma_file)
-                self.compile_mof_string(compile_pragma,
-                                        namespace=namespace,
-                                        search_paths=search_path,
-                                        verbose=verbose)
+            with self._restore_repository_on_error():
+                for schema_pragma_file in schema_pragma_files:
+                    search_path = os.path.dirname(schema_pragma_file)
+                    compile_pragma = build_schema_mof(
+                        class_names, schema_pragma_file)
+                    self.compile_mof_string(compile_pragma,
+                                            namespace=namespace,
+                                            search_paths=search_path,
+                                            verbose=verbose)
 
     ######################################################################
     #
@@ -916,8 +944,9 @@ class FakedWBEMConnection(WBEMConnection):
             self._mainprovider.validate_namespace(namespace)
 
             if isinstance(objects, list):
-                for obj in objects:
-                    self.add_cimobjects(obj, namespace=namespace)
+                with self._restore_repository_on_error():
+                    for obj in objects:
+                        self.add_cimobjects(obj, namespace=namespace)
 
             else:
                 obj = objects
